@@ -84,7 +84,9 @@ def cases(draw, transports):
     cuts = sorted(draw(st.lists(st.integers(0, n), min_size=0, max_size=3)))
     return {'enc': enc, 'errors': errors, 'data': data, 'mode': mode, 'cuts': cuts,
             'maxread': draw(st.sampled_from([1, 1, 2, 3])), 'transport': draw(st.sampled_from(transports)),
-            'bytes_mode': draw(st.integers(0, 9)) == 0}
+            'bytes_mode': draw(st.integers(0, 9)) == 0,
+            # pty: a control character is sent after every read (the send side must not touch the read decoder)
+            'interleave': draw(st.booleans())}
 
 
 def reference(case):
@@ -234,11 +236,25 @@ def run_pty(case, T):
         actions.append(['w', data[pts[i]:pts[i + 1]].hex()])
         actions.append(['s', 0.002])
     log = peers.RecLog()
-    child, ps = peers.pty_peer(actions, raw=True, record=False, wait_ready=False,
+    inter = bool(case.get('interleave'))
+    child, ps = peers.pty_peer(actions, raw=True, record=False, wait_ready=inter,
                                maxread=(case['maxread'] if case['mode'] == 'maxread' else 2000), **_mk_kwargs(case))
     try:
         child.logfile_read = log
         with guard('pty transport', allow=(EOF, TIMEOUT)):
+            if inter:
+                # the child is in raw mode (it said so) and never reads: what is sent has no effect on its output
+                got = child.buffer            # what arrived in the same read as the readiness token
+                if len(got):                  # ... before the log was attached
+                    log.writes.insert(0, got)
+                    log.flushed.insert(0, True)
+                try:
+                    while True:
+                        got += child.read_nonblocking(child.maxread, 10)
+                        child.sendcontrol('g')
+                except EOF:
+                    pass
+                return got, log
             child.expect(EOF)
         return child.before, log
     except TIMEOUT:
